@@ -3819,10 +3819,18 @@ class Device(utils.CompositeEventEmitter):
             )  # TODO: timeout
 
         def on_connection(connection):
-            pending_connection.set_result(connection)
+            # Only the outgoing LE connection completes this call: a connection
+            # accepted as a peripheral (or a BR/EDR one) while this one is pending
+            # belongs to someone else.
+            if (
+                connection.transport == PhysicalTransport.LE
+                and connection.role == hci.Role.CENTRAL
+            ):
+                pending_connection.set_result(connection)
 
         def on_connection_failure(error: core.ConnectionError):
-            pending_connection.set_exception(error)
+            if error.transport == PhysicalTransport.LE:
+                pending_connection.set_exception(error)
 
         # Create a future so that we can wait for the connection result
         pending_connection = asyncio.get_running_loop().create_future()
